@@ -198,6 +198,24 @@ def r18_1(ctx):
         ctx.check(R, ok, 'StartsWith::' + m, msg + ': Done -> %s, Running -> %s' % (fmt(done)[:40], fmt(run)[:60]), fn=f)
 
 
+def trait_defaults(ctx, R):
+    """the provided methods of the Automaton trait are the hints every user automaton gets unless it overrides them: they must be the
+    trivially sound ones (can_match = true, will_always_match = false, no end-of-key hook)"""
+    lib = ctx.lib
+    for m, want, why in (('can_match', ('const', 1), 'every automaton that does not override it is pruned at the root: searches return nothing'),
+                         ('will_always_match', ('const', 0), 'every automaton that does not override it is treated as matching everything below any state')):
+        f = lib.fn(AUT + m)
+        if f is None:
+            ctx.missing(R, 'anchor:default-' + m, 'provided method Automaton::%s not found' % m)
+            continue
+        r = [p.ret() for p in explore(f, max_visits=1) if p.end == 'return']
+        ctx.check(R, r == [want], 'default:' + m, 'the provided Automaton::%s must return %s (found %s): %s' % (m, bool(want[1]), [fmt(x)[:30] for x in r], why), fn=f)
+    f = lib.fn(AUT + 'accept_eof')
+    if f is not None:
+        r = [p.ret() for p in explore(f, max_visits=1) if p.end == 'return']
+        ctx.check(R, len(r) == 1 and r[0][0] == 'agg' and r[0][1].endswith('::None'), 'default:accept_eof', 'the provided Automaton::accept_eof must be None (no end-of-key transition)', fn=f)
+
+
 def r18_2(ctx):
     R = ctx.rule('R18.2', 'leaf hints: the can_match-false class is closed under accept and outside is_match; the will_always_match class is closed and inside is_match', floor=5)
     lib = ctx.lib
@@ -339,6 +357,7 @@ def r18_2(ctx):
             pay = r[0][2][1][2][0][1]
             good = is_call(pay, '::len') and any(z[0] == 'field' and z[1][0] == 'param' for z in walk(pay))
             ctx.check(R, good, 'Str:match-at-end', 'Str matches exactly when the whole string was consumed: the accepting position must be the length of the pattern, found %s' % fmt(pay)[:60], fn=im)
+    trait_defaults(ctx, R)
     ty = 'AlwaysMatch'
     for m, want in (('is_match', 1), ('can_match', 1)):
         f = lib.fn(IMPL % (ty, m))
